@@ -46,8 +46,8 @@ def gen_ops(rng, n):
                 else:
                     ops.append(("PSettleP", x, a))
         else:
-            ops.append(("PWait", a))
-    ops.append(("PWait", rng.randrange(NREGS)))
+            ops.append(("PWait", a, rng.random() < 0.4))
+    ops.append(("PWait", rng.randrange(NREGS), False))
     return ops
 
 
@@ -96,8 +96,15 @@ def drive(ops):
             P[op[1]].settle(LP[int](dict(src.coeffs), src.constant_term))
         elif t == "PWait":
             ret = None
-            with D.try_compute:
-                ret = regs[op[1]].wait()
+            if op[2]:
+                with D.try_compute:      # speculative evaluation
+                    ret = regs[op[1]].wait()
+            else:
+                try:                     # final evaluation: an unsettled Promise raises a plain Exception
+                    ret = regs[op[1]].wait()
+                except Exception as ex:
+                    if "is not ready" not in str(ex):
+                        raise
             rets.append(None if ret is None else _obs(ret, names))
         else:
             raise AssertionError(t)
@@ -131,7 +138,7 @@ def op_term(op):
     if t == "PSettleP":
         return f"PSettleP {op[1]} {op[2]}"
     if t == "PWait":
-        return f"PWait {op[1]}"
+        return f"PWait {'true' if op[2] else 'false'} {op[1]}"
     raise AssertionError(t)
 
 
